@@ -61,7 +61,10 @@ pub fn draw_knobs(rng: &mut Rng) -> SimKnobs {
         3 => 401,
         _ => 0,
     };
-    SimKnobs { threads, steal_p, log_thin, strategy, sched_seed: rng.u64(), edge_thin }
+    // half of the runs switch right before atomic operations (the synchronisation operations through which
+    // tasks of safe Rust code can communicate at all)
+    let atomic_thin = *rng.pick(&[0u32, 0, 0, 1, 1, 1, 2, 7]);
+    SimKnobs { threads, steal_p, log_thin, strategy, sched_seed: rng.u64(), edge_thin, atomic_thin }
 }
 
 pub fn draw_cfg(rng: &mut Rng, allow_dwarf: bool) -> CfgBits {
@@ -221,6 +224,12 @@ impl Prop for C09 {
         if case.sim.edge_thin != 0 {
             out.hit("runs_with_edge_level_preemption");
         }
+        if case.sim.atomic_thin != 0 {
+            out.hit("runs_with_preemption_before_atomic_operations");
+        }
+        out.add("sched_points_before_atomic_operations", sim.stats.sched_points_atomic);
+        out.add("atomic_operations_executed_in_parallel_build", sim.stats.atomic_ops_seen);
+        out.add("futex_waits_turned_into_yields", sim.stats.futex_waits_as_yield);
         out.add("context_switches", sim.stats.context_switches);
         out.add("scheduler_decisions", sim.stats.decisions);
         out.add(&format!("threads_{:02}", case.sim.threads), 1);
@@ -341,6 +350,12 @@ impl Prop for C09 {
             v.push(d);
             let mut d = c.clone();
             d.sim.edge_thin = c.sim.edge_thin.saturating_mul(8);
+            d.schedule = None;
+            v.push(d);
+        }
+        if c.sim.atomic_thin != 0 {
+            let mut d = c.clone();
+            d.sim.atomic_thin = 0;
             d.schedule = None;
             v.push(d);
         }
